@@ -309,6 +309,24 @@ fn main() {
         }
         t
     });
+    // S8: the five decision shapes (10..01, 49..9, 50..0, 50..01, 9..9) of the discarded digits at EVERY discarded
+    // length 1..=L: any estimate of the discarded length is exercised at every value
+    let lmax8: usize = tier.pick(2600, 10000);
+    run.bound("S8_discarded_lengths", format!("1..={}", lmax8));
+    run.par("S8 decision shapes at every discarded length", lmax8, |li| {
+        let l = li + 1;
+        let mut t = Tally::default();
+        for tail in decision_tails(l) {
+            for head in ["7", "86"] {
+                let x = Dec { n: big(&format!("{}{}", head, tail)), s: 3 };
+                sweep(&run, &x, &[head.len() as u64], &mut t);
+                if l % 16 == 1 {
+                    sweep(&run, &Dec { n: -x.n.clone(), s: -2 }, &[head.len() as u64], &mut t);
+                }
+            }
+        }
+        t
+    });
     // S6: coefficients on both sides of every machine-word limit x every p
     let wl = word_limit_ints();
     run.bound("S6_word_limit_coefficients", wl.len());
@@ -318,6 +336,22 @@ fn main() {
             let x = Dec { n: wl[i].clone(), s };
             let d = ndigits(&x.n);
             let ps: Vec<u64> = (1..=d + 2).collect();
+            sweep(&run, &x, &ps, &mut t);
+        }
+        t
+    });
+    // S9: structured coefficients (products crossing word limits, digit patterns at every length, carry chains,
+    // all-ones words) with k written-out trailing zeros x every precision inside the digits
+    let st = structured_ints(tier.pick(40, 120), tier.pick(24, 60), run.seed());
+    run.bound("S9_structured_integers", st.len());
+    run.par("S9 structured coefficients with written-out zeros", st.len(), |i| {
+        let mut t = Tally::default();
+        for x in structured_decimals(&st[i..=i], &[2], &[0, 9, 20]) {
+            if x.n.sign() == num_bigint::Sign::Minus && i % 4 != 0 {
+                continue;
+            }
+            let d = ndigits(&x.n);
+            let ps: Vec<u64> = (1..=d.min(48)).collect();
             sweep(&run, &x, &ps, &mut t);
         }
         t
